@@ -44,9 +44,19 @@ def gen_idle_script(rng):
     w1 = _req(1, rng.randint(1, nn), rng.randint(1, cpn), prio=rng.choice([0, 0, 1]))
     w2 = _req(2, rng.randint(1, nn), rng.randint(1, cpn), prio=rng.choice([0, 0, 1]))
     E = lambda inc=None, un=None: {'incoming': inc or [], 'marks': [], 'envs': [], 'unsched': un or []}
-    iters = [E([{'sched': [_req(0, nn, cpn)]}]), E([{'sched': [w1]}])]
+    if rng.random() < 0.4:
+        # ... or neither of the two fits even the idle pilot (more ranks than the pilot has cores)
+        w1 = _req(1, nn * cpn + rng.randint(1, 3), 1, prio=rng.choice([0, 0, 1]))
+        w2 = _req(2, nn * cpn + rng.randint(1, 3), 1, prio=rng.choice([0, 0, 1]))
+    if nn * cpn >= 2 and rng.random() < 0.5:
+        # the pilot is filled by two tasks which complete together (one unschedule message names both)
+        first = [_req(0, 1, 1), _req(3, nn * cpn - 1, 1)] if cpn == 1 or nn == 1 else [_req(0, 1, cpn), _req(3, nn - 1, cpn)]
+        rel = [[0, 3]]
+    else:
+        first, rel = [_req(0, nn, cpn)], [[0]]
+    iters = [E([{'sched': first}]), E([{'sched': [w1]}])]
     if rng.random() < 0.5: iters.append(E())
-    iters.append(E([{'sched': [w2]}], [[0]]))
+    iters.append(E([{'sched': [w2]}], rel))
     iters += [E(), E(), E()]
     return {'cfg': {'cpn': cpn, 'gpn': 0, 'lfs': 0, 'mem': 0, 'scattered': rng.random() < 0.7}, 'nodes': nodes, 'iters': iters}
 
@@ -70,7 +80,7 @@ def run(ctx, prop):
     for i in range(n):
         sc = schedlib.gen_script(rng, app_slots=(i % 6 == 5))
         scripts.append(schedlib.fill_releases(rp, sc))
-    for i in range(ctx.n(12, 300)):
+    for i in range(ctx.n(30, 600)):
         scripts.append(gen_idle_script(rng))
     for i in range(ctx.n(2, 40)):
         # large pilots: more than 512 releases reach the scheduler within one drain of the unschedule queue
